@@ -92,7 +92,7 @@ Section History.
     destruct (leaf_of N s k0) as [l2|]; [|discriminate]. cbn [bind].
     destruct (negb (l_indep l1) && negb (l_indep l2)); [|discriminate].
     destruct (keqb k k0 && negb (eqb N r (one N))); [discriminate|].
-    destruct (ltb N (one N) (nabs N r)); [discriminate|].
+    destruct (negb (leb N (nabs N r) (one N))); [discriminate|].
     match goal with |- context [match ?X with Some _ => _ | None => _ end] => destruct X end; [|discriminate].
     cbn [bind]. intros H; injection H as <-. reflexivity.
   Qed.
@@ -101,14 +101,14 @@ Section History.
     set_correlation N s r a b = Ok s' -> s_slots s' = s_slots s.
   Proof.
     unfold set_correlation. destruct (eqb N r (zero N)); [intros H; injection H as <-; reflexivity|].
-    destruct (node_df N s a) as [d1|]; [|discriminate]. cbn [bind].
-    destruct (if df_is_inf N d1 then (d2 <- node_df N s b;; Ok (df_is_inf N d2)) else Ok false) as [bi|]; [|discriminate].
-    cbn [bind]. destruct bi; [apply set_correlation_real_slots|].
-    destruct (unode a); try discriminate.
-    destruct (leaf_of N s k) as [l1|]; [|discriminate]. cbn [bind].
-    destruct (l_indep l1); [discriminate|].
-    destruct (unode b); try discriminate.
-    destruct (kmem k0 (ens_of N s l1)); [apply set_correlation_real_slots|discriminate].
+    destruct (unode a) as [|la|ka|ka] eqn:Ua; try discriminate;
+      destruct (unode b) as [|lb|kb|kb] eqn:Ub; try discriminate;
+      (destruct (node_df N s a) as [d1|]; [|discriminate]); cbn [bind];
+      (destruct (if df_is_inf N d1 then (d2 <- node_df N s b;; Ok (df_is_inf N d2)) else Ok false) as [bi|]; [|discriminate]);
+      cbn [bind]; (destruct bi; [apply set_correlation_real_slots|]); try discriminate;
+      (destruct (leaf_of N s ka) as [l1|]; [|discriminate]); cbn [bind];
+      (destruct (l_indep l1); [discriminate|]); try discriminate;
+      (destruct (kmem kb (ens_of N s l1)); [apply set_correlation_real_slots|discriminate]).
   Qed.
 
   (* declarations only append slots *)
